@@ -282,6 +282,36 @@ def worlds(draw, tree: list, max_genes: int = 6) -> dict:
     base = 40 + 8 * cutoff
     genes = draw(gen.gene_layout(base, False, max_genes=max_genes, multi_exon=True, allow_span=False,
                                  size_hint=max(3, cutoff // 2), gap_choices=(max(0, cutoff - 1), cutoff, cutoff + 1)))
+    if circular and draw(st.integers(0, 3)) == 0:
+        # neighbours over the origin with introns: the first gene after the origin and/or the last one before it get
+        # two or three exons (neither crosses the origin), the way round the origin is drawn around the cutoff below
+        ordered = sorted(genes, key=lambda g: min(p[0] for p in g["loc"]["parts"]))
+        taken = {(tuple(map(tuple, sorted(g["loc"]["parts"]))), g["loc"]["strand"]) for g in genes}
+        first, last = ordered[0], max(genes, key=lambda g: max(p[1] for p in g["loc"]["parts"]))
+        for gene, side in ((first, "first"), (last, "last")):
+            if draw(st.booleans()) or side == "first" and first is last:
+                continue
+            low = min(p[0] for p in gene["loc"]["parts"])
+            high = max(p[1] for p in gene["loc"]["parts"])
+            strand = gene["loc"]["strand"]
+            intron = draw(st.sampled_from([1, 2, max(1, cutoff - 1), cutoff, cutoff + 3]))
+            exons = draw(st.integers(2, 3))
+            # grow outwards from the record middle so that nothing else is overlapped more than before
+            if side == "first":
+                shift = (exons - 1) * (intron + 3)
+                for other in genes:
+                    if other is not gene:
+                        other["loc"]["parts"] = [[a + shift, b + shift] for a, b in other["loc"]["parts"]]
+                parts = [[low + k * (3 + intron), low + k * (3 + intron) + 3] for k in range(exons - 1)]
+                parts.append([low + shift, high + shift])
+            else:
+                parts = [[low, high]] + [[high + intron + (k - 1) * (3 + intron), high + intron + (k - 1) * (3 + intron) + 3]
+                                         for k in range(1, exons)]
+            key = (tuple(map(tuple, parts)), strand)
+            if key in taken:
+                continue
+            taken.add(key)
+            gene["loc"] = {"parts": parts if strand != -1 else list(reversed(parts)), "strand": strand, "kind": "multi"}
     last_end = max(p[1] for g in genes for p in g["loc"]["parts"])
     first_start = min(p[0] for g in genes for p in g["loc"]["parts"])
     tail = draw(st.one_of(st.integers(0, 3 * cutoff + 5),
@@ -376,12 +406,20 @@ def enum_cases(thorough: bool):
             for gap1, gap2 in itertools.product((cutoff - 1, cutoff, cutoff + 1), repeat=2):
                 starts = [2, 2 + size + gap1, 2 + 2 * size + gap1 + gap2]
                 end = starts[2] + size
-                topologies = [(False, end + 3)] + [(True, end + wrap - 2) for wrap in ((cutoff - 1, cutoff, cutoff + 1) if thorough else (cutoff - 1,))]
-                for circular, length in topologies:
+                intron = 2
+                topologies = [(False, end + 3, False)]
+                for wrap in ((cutoff - 1, cutoff, cutoff + 1) if thorough else (cutoff - 1,)):
+                    topologies.append((True, end + wrap - 2, False))
+                    # the same ring with a second exon on the last gene (an intron of 2 bases): the way round the origin
+                    # from its last exon to the first gene is still `wrap` bases
+                    topologies.append((True, end + intron + size + wrap - 2, True))
+                for circular, length, split_last in topologies:
                     for bits in itertools.product((0, 1), repeat=6):
                         for scores in score_sets:
                             genes = [{"name": f"g{i}", "loc": {"parts": [[s, s + size]], "strand": 1 if i != 1 else -1}}
                                      for i, s in enumerate(starts)]
+                            if split_last:
+                                genes[2]["loc"]["parts"].append([end + intron, end + intron + size])
                             hits = {}
                             for i in range(3):
                                 hits[f"g{i}"] = {}
